@@ -7,7 +7,7 @@ import itertools
 from hypothesis import strategies as st
 
 from vf.common import Check, Violation, require
-from vf.strategies import SINU_SPELLINGS, SPELLINGS, mk_crs, mk_crs_spec, simple_tag
+from vf.strategies import LOOKALIKES, SINU_SPELLINGS, SPELLINGS, mk_crs, mk_crs_spec, simple_tag
 
 RULE = (
     "Full product, enumerated: combining operations (registry + introspection of Geometry methods taking a Geometry) "
@@ -250,6 +250,13 @@ def _tag_pairs():
     out.append([{"label": "3857", "spell": "pyproj"}, {"label": "3577", "spell": "projjson"}])
     out.append([{"label": "sinu", "spell": "wkt2"}, {"label": "6933", "spell": "int"}])
     out.append([None, {"label": "4326", "spell": "pickle"}])
+    # look-alikes: same parameters as a registered CRS, axes reversed - different CRSs, whatever a fuzzy EPSG match says
+    for like, spell in (("like:utm33wsu", "proj"), ("like:utm33wsu", "wkt2"), ("like:utm55s_wsu", "proj")):
+        real = LOOKALIKES[like][0]
+        for rs in ("int", "wkt2"):
+            out.append([{"label": like, "spell": spell}, {"label": real, "spell": rs}])
+            out.append([{"label": real, "spell": rs}, {"label": like, "spell": spell}])
+    out.append([{"label": "like:utm33wsu", "spell": "proj"}, {"label": "like:utm33wsu", "spell": "wkt2"}])
     return out
 
 
@@ -424,6 +431,8 @@ def o_gbox(case, T):
         require(isinstance(val, ValueError), "%s raised %s, expected ValueError", op, type(val).__name__)
         T.nontrivial((op, len(boxes), tuple(None if t is None else (t["label"], t["spell"]) for t in tags)))
         T.cls("mismatch_rejected")
+        if "empty_operand" in case:
+            T.cls("mismatch_with_an_empty_operand")
         return
     if st_ == "err":
         raise Violation(f"{op} raised {type(val).__name__}: {str(val)[:100]} for GeoBoxes on one grid with equal CRS {[t and (t['label'], t['spell']) for t in tags]}")
@@ -456,6 +465,18 @@ def e_gbox(tier):
                     tags[pos] = tp[1]
                     for af in affs:
                         yield {"op": op, "tags": tags, "affine": af, "rects": rects[:n]}
+                    if not _labels_equal(tp):
+                        # the differently tagged operand is an EMPTY GeoBox (what `a & b` of disjoint boxes, or
+                        # gbox[:0, :0], gives): covering no pixel does not make its CRS compatible
+                        for wh in ((0, 0), (0, 3), (2, 0)):
+                            rr = [list(r) for r in rects[:n]]
+                            rr[pos][2], rr[pos][3] = wh
+                            yield {"op": op, "tags": tags, "affine": affs[0], "rects": rr, "empty_operand": pos}
+                            if pos != 0:
+                                # ... or it is the *matching* first operand that is empty
+                                rr2 = [list(r) for r in rects[:n]]
+                                rr2[0][2], rr2[0][3] = wh
+                                yield {"op": op, "tags": tags, "affine": affs[0], "rects": rr2, "empty_operand": 0}
 
 
 def o_introspect(case, T):
